@@ -162,6 +162,45 @@ def r191(ctx, repo):
                f"{q}: exclusive stop is sent as inclusive `stop-1`" if ok
                else f"{q}: {why} – expected bytes={{start}}-{{stop-1}}",
                node=js[0] if js else f, label="range header")
+        # a short-cut that returns without downloading may only apply to
+        # empty ranges (stop <= start): evaluated on small integer pairs
+        from ..absval import eval_pred
+        from ..cfg import CFG, branch_facts
+        rets = [n for n in walk(f) if isinstance(n, ast.Return)
+                and isinstance(n.value, ast.Constant)
+                and isinstance(n.value.value, (bytes, str))]
+        for r in rets:
+            conds = []
+            n = r
+            while getattr(n, "parent", None) is not None and n.parent is not f:
+                par = n.parent
+                if isinstance(par, ast.If):
+                    conds.append((par.test, n in par.body))
+                n = par
+            bad = None
+            if not conds:
+                bad = "unconditional"
+            for st_ in range(0, 4):
+                for sp_ in range(0, 5):
+                    if bad:
+                        break
+                    env = {a0: st_, a1: sp_}
+                    try:
+                        taken = all(bool(eval_pred(ast.parse(
+                            expand_locals(f, t), mode="eval").body, env))
+                            == pol for t, pol in conds)
+                    except AnalysisError:
+                        raise AnalysisError(
+                            f"{q}: cannot evaluate the short-cut condition "
+                            f"`{short(conds[0][0], 40)}`")
+                    if taken and sp_ > st_:
+                        bad = f"start={st_}, stop={sp_}"
+            ctx.ob("R19.1", bad is None,
+                   f"{q}: the no-download short-cut applies to empty ranges "
+                   f"only" if bad is None else
+                   f"{q}: returns {r.value.value!r} without downloading for "
+                   f"the non-empty range {bad}", node=r,
+                   label="short-cut only for empty ranges")
     # read_range_cached
     rr = inline_helpers(repo, HU, repo.func(HU, "HTTPFile.read_range_cached"),
                         keep=("get_cache_chunk", "download_range"))
@@ -591,6 +630,11 @@ def run(ctx):
 
 
 MUTANTS = [
+    ("s3: empty-range short-cut off by one (seeded C19_3)", S3,
+     ('        stream = self.s3_object.get(',
+      '        last = stop - 1\n        if last <= start:\n'
+      '            return b""\n        stream = self.s3_object.get('),
+     "R19.1"),
     ("range header inclusive stop", HU,
      ('headers={"Range": f"bytes={start}-{stop-1}"}',
       'headers={"Range": f"bytes={start}-{stop}"}'), "R19.1"),
@@ -676,6 +720,10 @@ MUTANTS = [
 ]
 
 TWINS = [
+    ("s3: correct empty-range short-cut", S3,
+     ('        stream = self.s3_object.get(',
+      '        last = stop - 1\n        if last < start:\n'
+      '            return b""\n        stream = self.s3_object.get(')),
     ("range header through locals (refactor C19/2)", HU,
      ('        resp = self.session.get(self.url,\n'
       '                                headers={"Range": '
